@@ -342,7 +342,8 @@ def list_jobs(hname):
         # the same documents bent by the template transformers of props_pipe (ends with the last tag, multi-byte text, inside a skipped element, ...)
         from props_pipe import TRANSFORMERS
         rnd_t = random.Random(seed * 31 + 5)
-        combos = [(n, t) for n in sorted(base) for t in sorted(TRANSFORMERS) if not (hname == 'c15_list' and n.startswith('leading-line-break'))]
+        combos = [(n, t) for n in sorted(base) for t in sorted(TRANSFORMERS) if not (hname == 'c15_list' and n.startswith('leading-line-break'))
+                  and not t.startswith('cr-lf')]   # CR LF sources are outside the list claims (str::lines() drops the CR)
         if tier == 'quick':
             combos = rnd_t.sample(combos, 24)
         for n, t in combos:
